@@ -202,6 +202,9 @@ func (t *TopK) Equals(u *TopK) (bool, error) {
 	if !t.sketch.Equals(u.sketch) {
 		return false, fmt.Errorf("sketches aren't equal")
 	}
+	if len(t.heap) != len(u.heap) {
+		return false, fmt.Errorf("heaps aren't equal")
+	}
 	for i := range t.heap {
 		if t.heap[i] != u.heap[i] {
 			return false, fmt.Errorf("heaps aren't equal")
